@@ -85,7 +85,7 @@ def _run_chunk(prop_id, verif_seed, idxs, tier, want_samples):
             trace["verif_seed"] = verif_seed
             res = exec_trace(mod, trace)
             rec.update(digest=res["digest"], nontrivial=res.get("nontrivial", False), stats=res.get("stats", {}),
-                       steps=res.get("steps", 0), skipped=res.get("skipped", 0))
+                       steps=res.get("steps", 0), skipped=res.get("skipped", 0), measures=res.get("measures", {}))
             if res["violations"]:
                 rec["violations"] = res["violations"]
                 rec["trace"] = res.get("explicit") or trace
@@ -320,6 +320,7 @@ def run_check(prop_id, tier, verif_seed, budget_s=None, workers=None, max_runs=N
     skipped = 0
     samples = []
     failing = []
+    measures = {}
     for r in recs:
         if "harness_error" in r:
             harness_errors.append(f"run {r['i']}: {r['harness_error']}")
@@ -331,6 +332,8 @@ def run_check(prop_id, tier, verif_seed, budget_s=None, workers=None, max_runs=N
         skipped += r.get("skipped", 0)
         for k, v in r["stats"].items():
             stats[k] = stats.get(k, 0) + v
+        for k, v in r.get("measures", {}).items():
+            measures.setdefault(k, set()).add(v)
         if "sample" in r:
             samples.append(r["sample"])
         if "violations" in r:
@@ -401,6 +404,7 @@ def run_check(prop_id, tier, verif_seed, budget_s=None, workers=None, max_runs=N
         "simulated_time": "n/a - cm-colors has no clocks or timers; time is counted in logical steps (I/O events, scheduler steps)",
         "probe_hits_and_faults_fired": dict(sorted(stats.items())),
         "skipped_boundary": skipped,
+        "distinct_by_measure": {k: len(v) for k, v in sorted(measures.items())},
         "known_findings_hit_in_generated_runs": known_hits,
         "known_findings_replayed": known_state,
         "unknown_violation_kinds": {f"{k[0]}": n for k, n in seen_kinds.items()},
